@@ -279,6 +279,55 @@ func (c *Ctx) trackerRules(rm map[string]string) {
 				}
 			}
 		}
+		if !ok && wipe != nil {
+			// ... or over a snapshot of the table taken by a helper that collects every channel of it
+			for _, cs := range CallSites(wipe) {
+				if cs.Common().StaticCallee() != m.delChanFn || c.LoopDepth(cs.Block()) != 1 || len(cs.Common().Args) < 2 {
+					continue
+				}
+				ld, isLd := cs.Common().Args[1].(*ssa.UnOp)
+				if !isLd || ld.Op != token.MUL {
+					continue
+				}
+				ia, isIA := ld.X.(*ssa.IndexAddr)
+				if !isIA {
+					continue
+				}
+				hc, isHC := ia.X.(*ssa.Call)
+				if !isHC || hc.Call.IsInvoke() || hc.Call.StaticCallee() == nil || !c.InModuleFn(hc.Call.StaticCallee()) {
+					continue
+				}
+				h := hc.Call.StaticCallee()
+				collects := false
+				for _, op := range mapOps(h) {
+					if op.Kind != "range" || op.Field != m.stChans {
+						continue
+					}
+					// every element of the range is appended to what the helper returns
+					funcInstrs(h, func(in ssa.Instruction) {
+						call, isC := in.(*ssa.Call)
+						if !isC {
+							return
+						}
+						if b, isB := call.Call.Value.(*ssa.Builtin); !isB || b.Name() != "append" || c.LoopDepth(call.Block()) != 1 {
+							return
+						}
+						for _, el := range c.varargElems(call.Call.Args[1]) {
+							if ex, isE := el.(*ssa.Extract); isE {
+								if nx, isN := ex.Tuple.(*ssa.Next); isN && nx.Iter == ssa.Value(op.In.(*ssa.Range)) {
+									if all, _ := AllPathsFromEntryPass(h, func(y ssa.Instruction) bool { return y == op.In }); all {
+										collects = true
+									}
+								}
+							}
+						}
+					})
+				}
+				if collects {
+					ok, why = true, "ranges over a snapshot of st.chans taken by "+c.FuncKey(h)+", deleting each channel"
+				}
+			}
+		}
 		r.Add(id, "wipe-all-channels", posFn(c, wipe), "(*state.stateTracker).Wipe", "Wipe forgets every tracked channel", ok, why)
 	}
 	// ---- R7 me never replaced
@@ -1618,6 +1667,50 @@ func runC13(c *Ctx) {
 					okMe = true
 				}
 			}
+			if !okMe {
+				// guard-clause form: "if ch == nil && !own { return }; if ch == nil { NewChannel }". On the CFG
+				// without the edges that contradict a condition dominating the call (the same comparison with the
+				// other outcome) and without the edges on which the own-nick test holds, the call is unreachable:
+				// every way to it passes the own-nick test
+				if anchorIn, isIn := dc.Anchor.(ssa.Instruction); isIn && anchorIn.Parent() == h && len(h.Blocks) > 0 {
+					dom := CondsAt(anchorIn.Block())
+					sameCond := func(x, y ssa.Value) bool {
+						if x == y {
+							return true
+						}
+						bx, okx := x.(*ssa.BinOp)
+						by, oky := y.(*ssa.BinOp)
+						if !okx || !oky || bx.Op != by.Op {
+							return false
+						}
+						same := func(p, q ssa.Value) bool {
+							return p == q || (isNilConst(p) && isNilConst(q)) || sameExpr(p, q, 0)
+						}
+						return same(bx.X, by.X) && same(bx.Y, by.Y)
+					}
+					skip := func(from, to *ssa.BasicBlock) bool {
+						cd, ok := edgeCond(from, to)
+						if !ok {
+							return false
+						}
+						cd = unwrapNot(cd)
+						if cd.True && c.ownNickTest(cd.V, 0) {
+							return true
+						}
+						for _, d := range dom {
+							d2 := unwrapNot(d)
+							if sameCond(d2.V, cd.V) && d2.True != cd.True {
+								return true
+							}
+						}
+						return false
+					}
+					reach := ReachFromFiltered(h.Blocks[0].Instrs[0], true, nil, skip)
+					if !reach[anchorIn] {
+						okMe = true
+					}
+				}
+			}
 			ch := dc.Args[0]
 			okAssoc, _ := AllPathsPass(dc.Anchor, false, func(in ssa.Instruction) bool { return isAssoc(in, 0, ch) })
 			r.Add("R2", "newchannel:"+c.FuncKey(h), c.InstrPos(dc.Site), c.FuncKey(h), "a channel is tracked only for the client's own join and is then associated", okMe && okAssoc, fmt.Sprintf("own-nick test=%v, Associate on all paths=%v", okMe, okAssoc))
@@ -1678,12 +1771,9 @@ func runC13(c *Ctx) {
 	}
 	for _, sf := range seeders {
 		funcInstrs(sf, func(in ssa.Instruction) {
-			if call, ok := in.(*ssa.Call); ok && call.Call.StaticCallee() != nil && call.Call.StaticCallee().Name() == "NewTracker" {
-				// argument: Nick field of Config.Me
-				if fv, base := loadedField(call.Call.Args[0]); fv != nil && fv.Name() == "Nick" {
-					if f2, _ := loadedField(base); f2 == a.CfgMe {
-						okSeed = true
-					}
+			if call, ok := in.(*ssa.Call); ok && !call.Call.IsInvoke() && call.Call.StaticCallee() != nil {
+				if ok2, _ := c.newTrackerForMe(call, nil, 0); ok2 {
+					okSeed = true
 				}
 			}
 		})
@@ -2714,6 +2804,25 @@ func (c *Ctx) modeDecisionsRule(rule string) {
 					return false, "depends on " + v.String()
 				case *ssa.BinOp:
 					if isStringType(t.X.Type()) {
+						// the sign kept as "+" / "-": a comparison among constants and single mode characters
+						// converted to strings involves no argument text
+						onlyConsts := func(v ssa.Value) bool {
+							for _, o := range c.originsLocal(v) {
+								switch cv := o.(type) {
+								case *ssa.Const:
+								case *ssa.Convert:
+									if !isByte(cv.X.Type()) {
+										return false
+									}
+								default:
+									return false
+								}
+							}
+							return true
+						}
+						if onlyConsts(t.X) && onlyConsts(t.Y) {
+							return true, ""
+						}
 						return false, "compares strings (" + t.X.Name() + " " + t.Op.String() + " " + t.Y.Name() + ")"
 					}
 					if ok, w := okV(t.X, d+1); !ok {
@@ -3103,6 +3212,21 @@ func (c *Ctx) rawKeysRule(rule string) {
 			for _, o := range c.originsLocal(op.Key) {
 				if c.capturedParam(o) {
 					continue
+				}
+				// a parameter spilled to a cell because closures of this function capture it
+				if ld, isLd := o.(*ssa.UnOp); isLd && ld.Op == token.MUL {
+					if al, isAl := ld.X.(*ssa.Alloc); isAl && al.Parent() == fn {
+						sts := cellStores(al)
+						onlyParam := len(sts) > 0
+						for _, st := range sts {
+							if _, isP := st.Val.(*ssa.Parameter); !isP {
+								onlyParam = false
+							}
+						}
+						if onlyParam {
+							continue
+						}
+					}
 				}
 				switch t := o.(type) {
 				case *ssa.Parameter:
